@@ -544,7 +544,7 @@ W_NUMPY_G += [(None, "z0"), (None, "z0.0"), (None, "z-0.0"), (None, "znp"), (Non
 FAMILY = {True: {"vec": "eigh", "val": "eigvalsh", "vecs": "eigvecsh"}, False: {"vec": "eig", "val": "eigvals", "vecs": "eigvecs"}}
 
 
-def _w_scipy(herm, d, complex_data, linop, zero_ok=True):
+def _w_scipy(herm, d, complex_data, linop, zero_ok=True, real_spectrum=False):
     if herm:
         w = [("SA", None), ("LA", None), ("LM", None), (None, None)]
         if d <= 20:
@@ -557,7 +557,7 @@ def _w_scipy(herm, d, complex_data, linop, zero_ok=True):
     w = [("LM", None), ("LR", None), ("SR", None), (None, None), ("SA", None), ("LA", None)]
     if d <= 20:
         w.append(("SM", None))
-    if complex_data:  # for real input ARPACK's LI/SI mean |imag| (scipy semantics)
+    if complex_data and not real_spectrum:  # for real input ARPACK's LI/SI mean |imag| (scipy semantics)
         w += [("LI", None), ("SI", None)]
     if not linop and d <= 32:
         w += [("TR", "in"), (None, "in")]
@@ -603,7 +603,9 @@ def _partial_subs(cell, d, herm, complex_data):
     elif grp == "krylov":  # SCIPY
         lim = d - 2  # (scipy solves complex Hermitian problems with the general driver: k < d - 1)
         for k in [k for k in (1, 2, 3) if k <= lim]:
-            for which, sig in _w_scipy(herm, d, complex_data, linop, zero_ok=cell["op"][0] not in ("singular", "symm", "degen")):
+            # (a Hermitian operator fed to the general solver has an all-real spectrum: selecting by imaginary
+            # part is a total tie decided by rounding noise - not asked of an iterative solver)
+            for which, sig in _w_scipy(herm, d, complex_data, linop, zero_ok=cell["op"][0] not in ("singular", "symm", "degen"), real_spectrum=cell["op"][0] == "hermG"):
                 for form, sort in combos:
                     add(form, k, which, sig, sort)
     elif grp == "lobpcg":
